@@ -63,6 +63,24 @@ def forward_case(case):
             v.append(violation("affinity_is_not_the_named_kernel_or_metric", {"got": A, "expected": expect["A"]}, **where))
         if y is not None and A is not y and not np.array_equal(A, y):
             v.append(violation("precomputed_matrix_not_used_as_is", {}, **where))
+    # the same estimator asked again on data with another number of features: still the named kernel/metric of *that* data,
+    # and the user's parameter dictionary is left as it was given
+    if name != "KernelRIM" and y is None and expect["A"] is not None and not (axis == "metric" and value == "haversine"):
+        import copy
+        given = {k_: copy.deepcopy(getattr(model, k_)) for k_ in ("kernel_params", "metric_params") if hasattr(model, k_)}
+        X2 = seams.tiny_data(N, D + 2, seed + 63)
+        if (axis == "kernel" and aff.needs_nonneg(value)) or (axis == "gemini" and isinstance(value, list) and value[0] == "MMD" and aff.needs_nonneg(value[1])):
+            X2 = np.abs(X2) + 0.1
+        _, _, expect2 = C.build(name, spec, X2, seed)
+        if not (axis == "metric" and value == "haversine"):
+            with warnings.catch_warnings():
+                warnings.simplefilter("ignore")
+                A2 = model.get_gemini().compute_affinity(X2, None)
+            if not np.array_equal(np.asarray(A2), np.asarray(expect2["A"])):
+                v.append(violation("affinity_on_second_dataset_is_not_the_named_kernel_or_metric", {"got": A2, "expected": expect2["A"]}, **where))
+        for k_, val_ in given.items():
+            if getattr(model, k_) != val_:
+                v.append(violation("user_parameter_dictionary_modified", {"param": k_, "given": val_, "now": getattr(model, k_)}, **where))
     for P in _probe_P(3, seed):
         got = float(g(P.copy(), A))
         exp, slack = gref.ref_score_slack(P, expect["A"], expect["dist"], expect["mode"])
